@@ -9,6 +9,7 @@ use crate::tree::BAL;
 use crate::util::*;
 use crate::Scenario;
 use cosmwasm_std::{BankMsg, Binary, CosmosMsg, ReplyOn, WasmMsg};
+use cosmwasm_std::{Api, Storage};
 use cw_multi_test::{App, AppBuilder, Executor};
 
 struct Inst {
@@ -144,6 +145,71 @@ fn run() {
     witness("end");
 }
 
+/// instances built with different address codecs (Bech32 / Bech32m, same prefix) next to each other on
+/// one thread: each must behave exactly as it does alone on a fresh thread (found missing by seed C19b: a
+/// thread-local cache keyed without the codec).  No symbols here: the reference runs need their own threads.
+macro_rules! codec_run {
+    ($api:expr, $hook:expr) => {{
+        let mut app = AppBuilder::default().with_api($api).build(|_, _, _| {});
+        let mut log: Vec<String> = vec![];
+        let user = app.api().addr_make("user");
+        let code = app.store_code(sc::contract());
+        $hook(0);
+        let r = app.instantiate_contract(code, user.clone(), &Script::new().write("m", "1"), &[], "c", Some(user.to_string()));
+        log.push(format!("{:?}", r.as_ref().map_err(|e| e.to_string())));
+        $hook(1);
+        if let Ok(k0) = r {
+            log.push(format!("{:?}", app.execute_contract(user.clone(), k0.clone(), &Script::new().write("n", "2").then(Step::Attr { k: "k".into(), v: "v".into() }), &[]).map_err(|e| e.to_string())));
+            $hook(2);
+            log.push(format!("{:?}", app.wrap().query_wasm_raw(k0.to_string(), b"n".to_vec())));
+            log.push(format!("{:?}", app.wrap().query_wasm_contract_info(k0.to_string()).map_err(|e| e.to_string())));
+            $hook(3);
+            log.push(format!("{:?}", app.api().addr_validate(k0.as_str()).map_err(|e| e.to_string())));
+        }
+        log.push(format!("{:?}", app.storage().range(None, None, cosmwasm_std::Order::Ascending).collect::<Vec<_>>()));
+        log
+    }};
+}
+
+fn codecs() {
+    use cw_multi_test::{MockApiBech32, MockApiBech32m};
+    let nohook = |_: usize| {};
+    // references: each codec alone on a fresh thread
+    let ref_b = std::thread::spawn(move || codec_run!(MockApiBech32::new("juno"), nohook)).join().unwrap();
+    let ref_m = std::thread::spawn(move || codec_run!(MockApiBech32m::new("juno"), nohook)).join().unwrap();
+    // interleaved on this thread: while one chain runs, the other one runs a complete history at every hook
+    let first_m = choose(2) == 1;
+    let at = choose(4);
+    let (got_b, got_m) = std::thread::spawn(move || {
+        if first_m {
+            let mut inner = None;
+            let m = codec_run!(MockApiBech32m::new("juno"), |i: usize| {
+                if i == at {
+                    inner = Some(codec_run!(MockApiBech32::new("juno"), nohook));
+                }
+            });
+            (inner.unwrap_or_default(), m)
+        } else {
+            let mut inner = None;
+            let b = codec_run!(MockApiBech32::new("juno"), |i: usize| {
+                if i == at {
+                    inner = Some(codec_run!(MockApiBech32m::new("juno"), nohook));
+                }
+            });
+            (b, inner.unwrap_or_default())
+        }
+    })
+    .join()
+    .unwrap();
+    check_native("bech32_instance_unaffected_by_a_bech32m_instance", got_b == ref_b, || format!("{:?} vs {:?}", got_b, ref_b));
+    check_native("bech32m_instance_unaffected_by_a_bech32_instance", got_m == ref_m, || format!("{:?} vs {:?}", got_m, ref_m));
+    check_native("codecs_differ", ref_b != ref_m, || "both codecs gave the same log".into());
+    witness("end");
+}
+
 pub fn scenarios(_tier: &str) -> Vec<Scenario> {
-    vec![Scenario::new("two_instances_interleaved", &["end"], run)]
+    vec![
+        Scenario::new("two_instances_interleaved", &["end"], run),
+        Scenario::new("different_address_codecs_side_by_side", &["end"], codecs),
+    ]
 }
